@@ -8,11 +8,12 @@ BEH = ["reply", "reply", "reply", "delay:%d" % (100 * MS), "delay:%d" % (900 * M
        "delay:%d" % (3 * SEC - 1), "delay:%d" % (3 * SEC), "delay:%d" % (3 * SEC + 1), "delay:%d" % (6 * SEC)]
 PROFILES = [
     {"requests": 2.5, "deploys": 1.5, "pause": 0, "rollout": 0.0, "remove": 0, "flap": 0, "flap_targets": False, "behaviours": BEH,
-     "fail_deploys": 0.15, "yields": 0.9, "initial_all": True,
+     "fail_deploys": 0.15, "yields": 0.9, "initial_all": True, "cooldown": 9 * SEC, "overlap": 0.1, "actions": (18, 55),
      "points": ["req:routed", "req:gate-passed", "req:lb-picked", "req:claimed", "deploy:found", "deploy:healthy",
                 "deploy:slot-updated", "deploy:installed", "drain:marked", "probe:applied"]},
     {"requests": 3.0, "deploys": 2.0, "pause": 0, "rollout": 0.5, "remove": 0, "flap": 0, "flap_targets": False, "behaviours": BEH,
-     "fail_deploys": 0.0, "yields": 0.3, "services": [b"web"], "initial_all": True,
+     "fail_deploys": 0.0, "yields": 0.3, "services": [b"web"], "initial_all": True, "cooldown": 9 * SEC, "overlap": 0.1,
+     "actions": (18, 55),
      "points": ["req:routed", "req:lb-picked", "deploy:slot-updated", "deploy:installed", "probe:applied"]},
 ]
 
@@ -27,6 +28,8 @@ def run(tier, seed):
         finding_what="a request that was already routed when its target began draining (redeploy swap) is refused with 503",
         assumptions=["every lock region of the Go code is one atomic step (runs use GOMAXPROCS(1); data-race freedom is C18's concern)",
                      "targets answer 200; scripted probe and target transports replace the network",
-                     "model/M5full.v is hand-written; tied to the code by acceptance of every recorded trace"],
+                     "model/M5full.v is hand-written; tied to the code by acceptance of every recorded trace",
+                     "requests of a service on which two commands overlapped (a command issued before the previous one on that service "
+                     "returned) are not judged from then on: the property quantifies over successive redeploys (observation D14)"],
         forced=[forced.d2_refused_during_redeploy(), forced.deploy_waits_for_rotation(), forced.drain_grants_the_drain_timeout(),
                 forced.stale_probe_result_after_the_deploy()])
